@@ -22,6 +22,7 @@ N4  match S: case C(): … case "x": … case _: …           ->  if isinstance
 from __future__ import annotations
 
 import ast
+import copy
 import re
 from typing import List, Optional
 
@@ -423,9 +424,161 @@ def _expand_local_kwargs(tree: ast.Module) -> int:
     return n_total
 
 
+# --------------------------------------------------------------------------- N14: filter loop + delivery loop  ->  one loop
+_PURE_STR_METHODS = {"strip", "lstrip", "rstrip", "lower", "upper", "startswith", "endswith", "removeprefix", "removesuffix", "isspace"}
+
+
+def _pure_expr(e: ast.AST) -> bool:
+    """Names, constants, comparisons, boolean operators, and str methods that cannot raise and touch nothing."""
+    for n in ast.walk(e):
+        if isinstance(n, ast.Call):
+            f = n.func
+            if isinstance(f, ast.Attribute) and f.attr in _PURE_STR_METHODS and not n.keywords:
+                continue
+            if isinstance(f, ast.Name) and f.id in ("len", "isinstance", "bool") and not n.keywords:
+                continue
+            return False
+        if isinstance(n, (ast.Await, ast.Yield, ast.YieldFrom, ast.NamedExpr, ast.Lambda, ast.ListComp, ast.SetComp, ast.DictComp, ast.GeneratorExp, ast.Subscript, ast.BinOp)):
+            return False
+    return True
+
+
+def _fuse_filter_loops(fn: ast.AST) -> int:
+    """N14:  acc = []                                   for p in X:
+             for p in X:                                    q = p.strip()
+                 q = p.strip()                   ->         if q:
+                 if q: acc.append(q)                            y = q
+             for y in acc: BODY                                 BODY
+    when the first loop only computes locals with side-effect-free, non-raising expressions, appends at most once per
+    iteration as the last thing it does, and `acc` is used for nothing else.  Every y reaches BODY in the same order with
+    the same value; nothing observable happens between the two loops in the original, so running BODY as soon as its
+    element is known changes no trace."""
+    count = 0
+
+    def own(n):
+        stack = list(ast.iter_child_nodes(n))
+        while stack:
+            x = stack.pop()
+            yield x
+            if not isinstance(x, (ast.FunctionDef, ast.AsyncFunctionDef, ast.Lambda, ast.ClassDef)):
+                stack.extend(ast.iter_child_nodes(x))
+
+    def uses(name):
+        return [x for x in own(fn) if isinstance(x, ast.Name) and x.id == name]
+
+    def blocks(n):
+        for x in [n] + list(own(n)):
+            for field in ("body", "orelse", "finalbody"):
+                v = getattr(x, field, None)
+                if isinstance(v, list) and v and isinstance(v[0], ast.stmt):
+                    yield v
+
+    def filter_body_ok(stmts, acc, tail) -> bool:
+        for i, st in enumerate(stmts):
+            last = tail and i == len(stmts) - 1
+            if isinstance(st, ast.Pass):
+                continue
+            if isinstance(st, ast.Continue):
+                if i != len(stmts) - 1:
+                    return False
+                continue
+            if isinstance(st, (ast.Assign, ast.AnnAssign)):
+                tg = st.targets if isinstance(st, ast.Assign) else [st.target]
+                if not all(isinstance(t, ast.Name) for t in tg) or st.value is None or not _pure_expr(st.value):
+                    return False
+                continue
+            if isinstance(st, ast.Expr) and isinstance(st.value, ast.Call) and isinstance(st.value.func, ast.Attribute) and st.value.func.attr == "append" and isinstance(st.value.func.value, ast.Name) and st.value.func.value.id == acc:
+                nxt_continue = i == len(stmts) - 2 and isinstance(stmts[-1], ast.Continue)
+                if not (last or nxt_continue) or len(st.value.args) != 1 or st.value.keywords or not _pure_expr(st.value.args[0]):
+                    return False
+                continue
+            if isinstance(st, ast.If):
+                if not _pure_expr(st.test):
+                    return False
+                if not filter_body_ok(st.body, acc, last) or not filter_body_ok(st.orelse, acc, last):
+                    return False
+                continue
+            return False
+        return True
+
+    def replace_appends(stmts, acc, target, body):
+        out = []
+        for st in stmts:
+            if isinstance(st, ast.Expr) and isinstance(st.value, ast.Call) and isinstance(st.value.func, ast.Attribute) and st.value.func.attr == "append" and isinstance(st.value.func.value, ast.Name) and st.value.func.value.id == acc:
+                bind = ast.Assign(targets=[copy.deepcopy(target)], value=st.value.args[0], type_comment=None)
+                out.append(ast.copy_location(bind, st))
+                out.extend(copy.deepcopy(b) for b in body)
+            elif isinstance(st, ast.If):
+                st.body = replace_appends(st.body, acc, target, body)
+                st.orelse = replace_appends(st.orelse, acc, target, body) if st.orelse else []
+                out.append(st)
+            else:
+                out.append(st)
+        return out
+
+    changed = True
+    while changed:
+        changed = False
+        for blk in blocks(fn):
+            for i, st in enumerate(blk):
+                # acc = []
+                acc = None
+                if isinstance(st, ast.Assign) and len(st.targets) == 1 and isinstance(st.targets[0], ast.Name) and isinstance(st.value, ast.List) and not st.value.elts:
+                    acc = st.targets[0].id
+                elif isinstance(st, ast.AnnAssign) and isinstance(st.target, ast.Name) and isinstance(st.value, ast.List) and not st.value.elts:
+                    acc = st.target.id
+                if acc is None or i + 2 >= len(blk) + 0 and False:
+                    continue
+                rest = blk[i + 1:]
+                if len(rest) < 2 or not isinstance(rest[0], ast.For) or rest[0].orelse:
+                    continue
+                l1 = rest[0]
+                j = 1
+                names = {acc}
+                while j < len(rest) and (isinstance(rest[j], ast.Pass) or (isinstance(rest[j], ast.Assign) and len(rest[j].targets) == 1 and isinstance(rest[j].targets[0], ast.Name) and isinstance(rest[j].value, ast.Name) and rest[j].value.id in names)):
+                    if isinstance(rest[j], ast.Assign):
+                        names.add(rest[j].targets[0].id)
+                    j += 1
+                if j >= len(rest) or not isinstance(rest[j], (ast.For, ast.AsyncFor)) or isinstance(rest[j], ast.AsyncFor) or rest[j].orelse:
+                    continue
+                l2 = rest[j]
+                if not (isinstance(l2.iter, ast.Name) and l2.iter.id in names):
+                    continue
+                if not isinstance(l1.target, ast.Name) or not _pure_expr(l1.iter) and not isinstance(l1.iter, (ast.Name, ast.Attribute)):
+                    continue
+                if not filter_body_ok(l1.body, acc, True):
+                    continue
+                # acc and its aliases are used for nothing else
+                n_app = sum(1 for x in ast.walk(l1) if isinstance(x, ast.Name) and x.id == acc)
+                ok = len(uses(acc)) == 1 + n_app + (1 if l2.iter.id == acc else 0) + sum(1 for k in range(1, j) if isinstance(rest[k], ast.Assign) and rest[k].value.id == acc)
+                for a in names - {acc}:
+                    ok = ok and len(uses(a)) == 1 + (1 if l2.iter.id == a else 0) + sum(1 for k in range(1, j) if isinstance(rest[k], ast.Assign) and rest[k].value.id == a)
+                if not ok:
+                    continue
+                # what the first loop computes stays inside it; the second loop's body does not know those names
+                l1_names = {x.id for x in ast.walk(l1) if isinstance(x, ast.Name) and isinstance(x.ctx, ast.Store)}
+                l1_nodes = {id(x) for x in ast.walk(l1)}
+                if any(isinstance(x, ast.Name) and x.id in l1_names and id(x) not in l1_nodes for x in own(fn)):
+                    continue
+                l2_stores = {x.id for b in l2.body for x in ast.walk(b) if isinstance(x, ast.Name) and isinstance(x.ctx, ast.Store)} | {x.id for x in ast.walk(l2.target) if isinstance(x, ast.Name)}
+                l1_reads = {x.id for x in ast.walk(l1) if isinstance(x, ast.Name) and isinstance(x.ctx, ast.Load)}
+                if l2_stores & (l1_reads | l1_names):
+                    continue
+                l1.body = replace_appends(l1.body, acc, l2.target, l2.body)
+                blk[i:i + 1 + j + 1] = [l1]
+                count += 1
+                changed = True
+                break
+            if changed:
+                break
+    return count
+
+
 def normalize(tree: ast.Module) -> int:
     nz = Normalizer()
     nz.visit(tree)
+    for fn_ in [x for x in ast.walk(tree) if isinstance(x, (ast.FunctionDef, ast.AsyncFunctionDef))]:
+        nz.count += _fuse_filter_loops(fn_)
     nz.count += _inline_function_aliases(tree)
     for node in ast.walk(tree):
         for field in ("body", "orelse", "finalbody"):
